@@ -45,6 +45,10 @@ func checkC06(c *Ctx) error {
 	if err == nil && !c.Thorough() {
 		// every single operator over the full pool (all printed forms of the right operand of string +)
 		_, err = c.mustTLC("GenExpr/one", TLCOpts{Module: "GenExpr", Cfg: "GenExpr.one.cfg", Workers: 8, Seed: c.Seed, Timeout: 40 * time.Minute}, true, pool.feed)
+		if err == nil {
+			// sums and products three operators deep over a string and two numbers
+			_, err = c.mustTLC("GenExpr/cat", TLCOpts{Module: "GenExpr", Cfg: "GenExpr.cat.cfg", Workers: 8, Seed: c.Seed, Timeout: 40 * time.Minute}, true, pool.feed)
+		}
 	}
 	if err == nil {
 		c.exhaustive = true
